@@ -129,7 +129,8 @@ theorem node_reads (f : Term → Term) (op : Op) (args args' : List Term) (p : P
     next s vs b' hs =>
     obtain ⟨b, rfl, rfl⟩ := map_eq1 hmap
     simp only [Bool.and_eq_true, Bool.not_eq_true', List.all_eq_true] at h
-    obtain ⟨⟨hne, hres⟩, h⟩ := h
+    obtain ⟨⟨hne, hres'⟩, h⟩ := h
+    have hres : ∀ x ∈ vs, reservedName x.name = false := fun x hx => hrName_reserved (hres' x hx)
     cases vs with
     | nil => simp at hne
     | cons v vs =>
@@ -177,16 +178,17 @@ theorem node_reads (f : Term → Term) (op : Op) (args args' : List Term) (p : P
   · -- f ( a , b )
     next g a' as' hs =>
     obtain ⟨a, as, rfl, rfl, rfl⟩ := map_eq_cons hmap
-    simp only [Bool.and_eq_true, Bool.not_eq_true'] at h
-    refine ⟨reads_app f hs h.1 (isOk_eq h.2) (ih a (by simp)).start (fun x hx => (ih x hx).reads), ?_⟩
-    simp [hrTokens_node, nodeToks, hs, lexIdent, h.1, startOK]
+    simp only [Bool.and_eq_true] at h
+    have hr := hrName_reserved h.1
+    refine ⟨reads_app f hs hr (isOk_eq h.2) (ih a (by simp)).start (fun x hx => (ih x hx).reads), ?_⟩
+    simp [hrTokens_node, nodeToks, hs, lexIdent, hr, startOK]
   · -- symbol
     next s hs =>
     cases map_eq0 hmap
-    simp only [Bool.not_eq_true'] at h
+    have hr := hrName_reserved h
     cases shape_sym_op hs
-    refine ⟨good_sym h, ?_⟩
-    simp [hrTokens_node, nodeToks, hs, lexIdent, h, startOK]
+    refine ⟨good_sym hr, ?_⟩
+    simp [hrTokens_node, nodeToks, hs, lexIdent, hr, startOK]
   · -- constants
     next p hs =>
     cases map_eq0 hmap
